@@ -174,7 +174,7 @@ func (s *RegistrySyncer) syncRange(
 		})
 	})
 	if err != nil {
-		log.Warn().AnErr("error adding identity registered event into db", err)
+		return errors.Wrap(err, "failed to store identity registered events and sync status")
 	}
 	log.Info().
 		Uint64("start-block", start).
